@@ -700,7 +700,7 @@ def gen_all(ctx):
     cases += systematic_cases(18 if ctx.quick else 41, "sys")
     n_sys = len(cases) - n_corpus
     seeds = ["r0"] if ctx.quick else ["r0", "r1", "r2", "r3", "r4"]
-    per_seed = 900 if ctx.quick else 14000
+    per_seed = 6000 if ctx.quick else 40000
     for s in seeds:
         rng = random.Random(ctx.subseed("C06/" + s))
         for i in range(per_seed):
@@ -721,8 +721,26 @@ def report_failure(ctx, cbin, mbin, case, f, shrunk=True):
                found_input=True)
 
 
+def coqchk(ctx):
+    """thorough: re-check the compiled property module with the independent checker"""
+    rc, out = vlib.sh(["coqchk", "-silent", "-o", "-Q", ".", "LibaV", "LibaV.Properties_C06"], cwd=vlib.COQ, timeout=900)
+    ax = re.search(r"\* Axioms:\s*(.*?)\n\s*\n", out, flags=re.S)
+    ok = rc == 0 and ax is not None and ax.group(1).strip() == "<none>"
+    ctx.cov["coqchk"] = {"rc": rc, "axioms": ax.group(1).strip() if ax else "?"}
+    if not ok:
+        ctx.tie_broken("coqchk on LibaV.Properties_C06 failed or reports axioms: rc=%d %s" % (rc, out[-400:]))
+    else:
+        ctx.cov["trusted_base"].append("coqchk -o LibaV.Properties_C06: accepted, axioms <none>")
+
+
 def run(ctx):
-    ctx.prove()
+    if not ctx.quick:
+        # rebuild this property's files from clean
+        for f in list((vlib.COQ / "C06").glob("*.vo")) + [vlib.COQ / "Properties_C06.vo"]:
+            if f.exists():
+                f.unlink()
+    if ctx.prove() and not ctx.quick:
+        coqchk(ctx)
     cbin, mbin = build(ctx)
     cases, n_corpus, n_sys = gen_all(ctx)
     ctx.log("cases: %d (corpus %d, systematic %d), ops: %d" % (len(cases), n_corpus, n_sys,
